@@ -181,6 +181,33 @@ def value_and_search(rnd, acc, case=None):
                 acc.violation('C17/resource-units', f'Resource.get_available_units({d}) = {u!r}, calendar value {exp!r}', _one(case, d, cls))
         except Exception as e:
             acc.violation(f'C17/resource-raised-{type(e).__name__}', f'Resource.get_available_units({d}) raised {e}', _one(case, d, cls))
+    # a resource answers from the calendar it has now: after its calendar was replaced (or a dated calendar was edited through
+    # set_units) the dates asked before give the new answers
+    if case['dates']:
+        from pjplan import DirectCalendar, FixedCalendar
+        r2 = Resource(case.get('resource_name', 'r'), cal)
+        ds_ = [d for d, _c in case['dates'][:5]]
+        for d in ds_:
+            try:
+                r2.get_available_units(d)
+            except Exception:
+                pass
+        try:
+            r2.get_nearest_availability_date(ds_[0], 1, 3)
+        except Exception:
+            pass
+        r2.calendar = FixedCalendar(3.5)
+        acc.ev()
+        acc.count('resource_calendar_replacements')
+        got_ = [r2.get_available_units(d) for d in ds_]
+        if any(g_ != 3.5 for g_ in got_):
+            acc.violation('C17/resource-units/after-calendar-replaced', f'after resource.calendar was replaced by a constant 3.5 calendar the resource answers {got_} for dates it was asked before', _one(case, ds_[0], 'random'))
+        dc_ = DirectCalendar({ds_[0]: 2})
+        r3 = Resource('r3', dc_)
+        r3.get_available_units(ds_[0])
+        dc_.set_units({ds_[0]: 6})
+        if r3.get_available_units(ds_[0]) != 6:
+            acc.violation('C17/resource-units/after-set_units', f'after set_units on its dated calendar the resource still answers {r3.get_available_units(ds_[0])!r} instead of 6', _one(case, ds_[0], 'random'))
     # search
     r = Resource(case.get('resource_name', 'r'), cal)
     for d0, dirn, md in case['searches']:
